@@ -79,7 +79,16 @@ def _parse_float_column(values: Iterable, fixer: ParseFixer = None):
     for row, val in enumerate(values):
         if isinstance(val, float) or isinstance(val, int):
             # It's already a number.
-            float_values.append(float(val))
+            try:
+                float_values.append(float(val))
+            except OverflowError as err:
+                # An integer too large to be represented as a float
+                if fixer is not None:
+                    fixer.table_row = row
+                    fix_value = fixer.fix_illegal_cell_value("float", val)
+                    float_values.append(fix_value)
+                else:
+                    raise ValueError("Illegal value in numerical column", val) from err
             continue
 
         # It's a string.
